@@ -141,7 +141,9 @@ def install():
     import numpy  # noqa
     ssm.klu = LibProxy(ssm.klu)
     ssm.umfpack = LibProxy(ssm.umfpack)
-    real_splu, real_spsolve = spm.splu, spm.spsolve
+    # (the module may have been rewritten so that it no longer imports one of the two library entry points:
+    # the wrappers are installed for whatever it does import)
+    real_splu, real_spsolve = getattr(spm, 'splu', None), getattr(spm, 'spsolve', None)
 
     def splu(A):
         try:
@@ -158,8 +160,10 @@ def install():
             r = real_spsolve(A, b)
         _Log.put('Q ')
         return r
-    spm.splu = splu
-    spm.spsolve = spsolve
+    if real_splu is not None:
+        spm.splu = splu
+    if real_spsolve is not None:
+        spm.spsolve = spsolve
     _installed = True
 
 
